@@ -139,8 +139,16 @@ func (e *gnetServer) OnOpen(c gnet.Conn) (out []byte, action gnet.Action) {
 	cc := &connCtx{
 		remoteAddr: netAddr2NetipAddr(c.RemoteAddr()),
 		localAddr:  netAddr2NetipAddr(c.LocalAddr()),
-		idleTimer:  time.AfterFunc(e.idleTimeout, func() { c.Close() }),
 	}
+	cc.idleTimer = time.AfterFunc(e.idleTimeout, func() {
+		if cc.concurrentRequests.Load() > 0 {
+			// Not idle. There are queries in flight, their responses
+			// have to be written to this connection.
+			cc.idleTimer.Reset(e.idleTimeout)
+			return
+		}
+		c.Close()
+	})
 	c.SetContext(cc)
 
 	if err := e.r.limiterAllowN(cc.remoteAddr.Addr(), costTCPConn); err != nil {
